@@ -20,6 +20,10 @@ from . import common
 PID = 'C01'
 
 
+def _guard(case):
+    return lambda fn: common.guarded(fn, case)
+
+
 def units(tier, seed):
     us = []
     if tier == 'quick':
@@ -53,7 +57,7 @@ def _case(model, cells, side, qval, n, m, what):
     table = harness.table_from_model(model, cells)
     labels = [(objs if side == 'intension' else props)[i] for i in range(max(n, m)) if (qval >> i) & 1]
     return {'kind': 'derivation', 'objects': list(objs), 'properties': list(props), 'table': table, 'side': side,
-            'labels': labels, 'what': what}
+            'labels': labels, 'what': what, 'probe': max(n, m) > 8}
 
 
 def _val(model, v):
@@ -71,7 +75,7 @@ def unit_kernel(args, prefix=(), max_depth=None):
     r = z3.BitVec('r', core.W)
     enc = {}
 
-    @common.guarded
+    @_guard(lambda mdl, what: _case(mdl, cells, 'intension', _val(mdl, q), n, m, what))
     def body():
         cx = core.ctx()
         objs, props = harness.names(n, m)
@@ -161,7 +165,7 @@ def unit_inductive(args, prefix=(), max_depth=None):
             ('double', 1): _make_inv('double', 'prime', 'self', record)}
     enc = {}
 
-    @common.guarded
+    @_guard(lambda mdl, what: _case(mdl, cells, args['side'], _val(mdl, q), n, m, what))
     def body():
         cx = core.ctx()
         objs, props = harness.names(n, m)
@@ -241,7 +245,7 @@ def unit_api(args, prefix=(), max_depth=None):
         return {'kind': 'derivation', 'objects': list(objs), 'properties': list(props),
                 'table': harness.table_from_model(mdl, cells), 'side': side, 'labels': list(labels), 'what': what}
 
-    @common.guarded
+    @_guard(lambda mdl, what: case(mdl, 'intension', [], what))
     def body_raw():
         cx = core.ctx()
         ctx = mk()
@@ -289,7 +293,7 @@ def unit_api(args, prefix=(), max_depth=None):
             for sub in itertools.combinations(range(len(labels)), k):
                 names_ = [labels[i] for i in sub]
 
-                @common.guarded
+                @_guard(lambda mdl, what: case(mdl, side, names_, what))
                 def body_lab():
                     cx = core.ctx()
                     ctx = mk()
@@ -345,7 +349,7 @@ def unit_wide(args, prefix=(), max_depth=None):
         q = z3.BitVec('q', core.W)
         r = z3.BitVec('r', core.W)
 
-        @common.guarded
+        @_guard(lambda mdl, what: _case(mdl, cells, 'intension', _val(mdl, q), n, m, what))
         def body():
             cx = core.ctx()
             objs, props = harness.names(n, m)
